@@ -411,6 +411,66 @@ theorem c01_print_outside_try_raises_witness :
         ⟨8, none, none, true⟩ none).2 = .raised := by
   rfl
 
+/-! ### … whatever the console does (`Console`, `metabolizeOn`, `historyOn` in `Model/Mito.lean`)
+
+A non-silent engine (the constructor default, the one `BioAgent` builds) writes a progress line to `sys.stdout`.  The
+stream is the caller's: closed, a strict ASCII / latin-1 / cp1252 console that cannot encode the line's emoji, a pipe
+whose k-th write fails.  "It never raises to the caller" includes that write. -/
+
+/-- `metabolize` on ANY console state (kind of stream, number of writes it has seen) returns a result — never raises —
+    for every configuration, input, pathway, table content and environment, when the print and the dispatch sit inside
+    the handler. -/
+theorem c01_total_on_every_console (T : Tables) (env : Env) (cfg : Cfg) (hp : cfg.printInTry = true)
+    (hd : cfg.dispatchInTry = true) (latched : Bool) (d : Pathway) (c : Console) (written : Nat) (inp : Inp)
+    (forced : Option Pathway) :
+    ∃ s v r p, (metabolizeOn T env cfg latched d c written inp forced).1.2 = .result s v r p := by
+  unfold metabolizeOn
+  exact c01_total T env cfg hp hd latched d _ forced
+
+/-- The current source (E1 facts): in a history of calls of any length on one engine and one console stream — the
+    stream's write count running through the history, so that "the k-th write fails" lands on whichever call it lands —
+    no call raises. -/
+theorem c01_history_on_every_console_never_raises (T : Tables) (env : Env) (cfg : Cfg)
+    (hp : cfg.printInTry = Gen.printInTry) (hd : cfg.dispatchInTry = Gen.dispatchInTry) (detect : Inp → Pathway)
+    (c : Console) (written : Nat) (calls : List (Bool × Inp × Option Pathway)) :
+    ∀ o ∈ historyOn T env cfg detect c written calls, o ≠ .raised := by
+  induction calls generalizing written with
+  | nil => intro o ho; simp [historyOn] at ho
+  | cons x rest ih =>
+    obtain ⟨l, i, f⟩ := x
+    intro o ho
+    simp only [historyOn, List.mem_cons] at ho
+    cases ho with
+    | inl h =>
+      obtain ⟨s, v, r, p, e⟩ := c01_total_on_every_console T env cfg (by rw [hp]; decide) (by rw [hd]; decide) l
+        (detect i) c written i f
+      rw [h, e]; exact fun h => nomatch h
+    | inr h => exact ih _ o h
+
+/-- non-vacuity: the stream's third write fails — exactly the second of three calls is a (counted) failure result -/
+example : historyOn ⟨[], [], [], [], []⟩ ⟨fun _ => .h 0, fun _ _ => .error "", fun _ => .error "", fun _ _ _ => .error "",
+        fun _ _ _ => .error ""⟩
+    ⟨10000, false, false, [], none, true, true, true⟩ (fun _ => .glycolysis) (.failAt 3) 0
+    [(false, ⟨1, some (.const (.h 1)), none, false⟩, none), (false, ⟨1, some (.const (.h 1)), none, false⟩, none),
+      (false, ⟨1, some (.const (.h 1)), none, false⟩, none)]
+    = [.result true (some (.h 1)) false (some .glycolysis), .result false none true (some .glycolysis),
+       .result true (some (.h 1)) false (some .glycolysis)] := by
+  rfl
+
+/-- A progress line outside the handler is expressible and raises on a console that refuses the write — no odd
+    character in the text needed: a closed stream, or a stream whose second write (the newline of the first `print`)
+    fails. -/
+theorem c01_console_refusal_outside_try_raises_witness :
+    (metabolizeOn ⟨[], [], [], [], []⟩ ⟨fun _ => .h 0, fun _ _ => .error "", fun _ => .error "", fun _ _ _ => .error "",
+        fun _ _ _ => .error ""⟩
+        ⟨10000, false, false, [], none, false, true, true⟩ false .glycolysis
+        .closed 0 ⟨1, some (.const (.h 1)), none, false⟩ none).1.2 = .raised
+    ∧ (metabolizeOn ⟨[], [], [], [], []⟩ ⟨fun _ => .h 0, fun _ _ => .error "", fun _ => .error "", fun _ _ _ => .error "",
+        fun _ _ _ => .error ""⟩
+        ⟨10000, false, false, [], none, false, true, true⟩ false .glycolysis
+        (.failAt 2) 0 ⟨1, some (.const (.h 1)), none, false⟩ none).1.2 = .raised :=
+  ⟨rfl, rfl⟩
+
 /-! ### … through the result containers (what the CALLER sees: `Model/MitoBox.lean`)
 
 Every result — the refusals at the guards, the failure built inside the handler, the success — is an instance of the
